@@ -75,3 +75,8 @@ claimed["C16"] = dict(engine="engine-I", category="model_checking",
   text="every byte string of length <=5 (thorough 6; 7 for the synchronous reader) over {> A c N - x SP LF CR}; every line-breaking x case x line-ending x final-newline layout of 6 (12) small alignments with a blank line at every boundary; every truncation / single-byte deletion, replacement, insertion / dropped or doubled line of those alignments; each reader must return the reference parser's records on valid streams, reject invalid ones, and never panic or deadlock (exact outcomes, no time-outs)",
   note="trusted: refParse in harness/c16.go (tokenisation = bufio.ScanLines); streams with blank lines / nameless headers / no sequence judged for totality only; 'all byte streams' is covered to the stated length over a 9-byte alphabet, not by fuzzing",
   design_ref="DESIGN.md 3 (C16)")
+claimed["C19"] = dict(engine="engine-S", category="fault_enumeration",
+  technique="exhaustive write-fault enumeration (every k-th Write, one-shot and persistent) under the controlled scheduler with bounded preemptions, plus byte-granular RLIMIT_FSIZE faults on the real binary",
+  text="for every entry point with an io.Writer, the failure of the k-th Write for every k up to the number of writes of the fault-free run, in both fault modes, under every schedule with <=1 (thorough <=2) preemptions: the call must return a non-nil error (never nil, hang or panic); and the real binary with RLIMIT_FSIZE = every n below the output size, for every command including sam toPairAlign to stdout and to a directory, must exit non-zero",
+  note="trusted: the scheduler shim; fault model = Write returns (0, err); EFBIG delivery by the kernel at the write that crosses the limit",
+  design_ref="DESIGN.md 2.4, 3 (C19)")
